@@ -125,6 +125,19 @@ def run(R, ctx):
             if st.get("leader-terms", 0) >= 2 or st.get("restarts", 0) > 0 or st.get("truncations", 0) > 0:
                 nontrivial += 1
     safety = [(n, l) for n, l in enumerate(lines, 1) if l.startswith("SAFETY-VIOLATION") or l.startswith("HARNESS-BUG")]
+    # ---- library features outside the model (PreVote): many more schedules, judged by the safety predicates on the implementation only
+    # (these never go through the Lean driver, so they are cheap: ~250 schedules x 300 events per second)
+    extra_sched = 1500 if R.tier == "quick" else 40000
+    extra_events = 0
+    for prof in ("prevote-reorder", "prevote-partition"):
+        l2, se2, rc2 = core.run_harness(binary, "raftsim", [], args=["-schedules", str(extra_sched), "-events", "300", "-seed", str(R.seed * 13 + 5),
+                                                                    "-profile", prof, "-stageA", "0"])
+        extra_events += sum(parse_stats(l).get("events", 0) for l in l2 if l.startswith("# STATS"))
+        for n2, l in enumerate(l2, 1):
+            if l.startswith("SAFETY-VIOLATION") or l.startswith("HARNESS-BUG"):
+                hdr2, prefix2 = schedule_of_line(l2, n2)
+                safety.append((0, l + " (PreVote safety-only batch, profile %s)" % prof, hdr2, [x.lstrip("# ") for x in prefix2]))
+    R.extra["prevote_safety_only"] = dict(schedules=2 * extra_sched, events=extra_events, profiles=["prevote-reorder", "prevote-partition"])
 
     # ---- lock-step: every event replayed through RS.handle
     ds = run_driver_parallel(lines, workers)
@@ -174,8 +187,9 @@ def run(R, ctx):
                                    "is accepted (leaderOut)"]
 
     # ---- failing schedules
-    for k, (n, l) in enumerate(safety[:3]):
-        hdr, prefix = schedule_of_line(lines, n)
+    for k, sv in enumerate(safety[:3]):
+        n, l = sv[0], sv[1]
+        hdr, prefix = (sv[2], sv[3]) if len(sv) > 2 else schedule_of_line(lines, n)
         f = hdr.split()
         R.violation("raftsim-safety-%d" % k, dict(
             kind="impl-violates-spec", engine="raftsim", summary=l[:300], schedule=dict(n=int(f[1]), seed=int(f[2]), profile=f[3], events=int(f[4])),
